@@ -240,6 +240,18 @@ def generate(st):
         # an object built directly is nobody's registration, even when it carries the key of a registered calendar
         ops.append(dict(op='new_cal', slot=j, ckey=(g.choice(keys) if g.random() < 0.4 else None), **c))
         current['slot:%d' % j] = c
+    if g.random() < 0.35 and current:
+        # one more calendar object, DERIVED from an existing (still unused) one: a plain copy, or the same calendar with another
+        # weekend through the mapping idioms every calendar inherits.  It keeps what it is not told to change (holidays, range, adj)
+        src = g.choice(sorted(current))
+        how = g.choice(['copy', 'copy', 'call', 'plus'])
+        c = dict(current[src])
+        c.setdefault('adj', 'm')
+        if how != 'copy':
+            c['weekend'] = g.choice([w for w in WEEKENDS if w != c['weekend']])
+        j = cfg['slots']
+        ops.append({'op': 'derive_cal', 'slot': j, 'from': src, 'how': how, 'weekend': c['weekend']})
+        current['slot:%d' % j] = c
     targets = sorted(current)
     last_target = None
     while len(ops) < cfg['n_ops']:
@@ -381,6 +393,27 @@ def execute(trace, ctx=None):
                 if bool(got) != sref.is_bday(t):
                     raise Violation('is-bday', 'an earlier calendar object of %s answers is_bday(%s) = %r, by its own holidays %r' % (op['key'], op['t'], got, sref.is_bday(t)), k)
                 res.probe('earlier-object-used-after-reregistration')
+                continue
+            if kind == 'derive_cal':
+                src = op['from']
+                sref = refs.get(src)
+                sobj = calendar(src[4:]) if src.startswith('key:') else slots.get(int(src[5:]))
+                if sref is None or sobj is None or warmed.get(src):
+                    continue
+                W = list(op['weekend'])
+                if op['how'] == 'copy':
+                    dobj = lib(lambda: Calendar(sobj), 'Calendar(calendar_object)')
+                    W = sorted(sref.w)
+                elif op['how'] == 'call':
+                    dobj = lib(lambda: sobj(key='derived%d' % op['slot'], weekend=W), 'calendar_object(key=..., weekend=...)')
+                else:
+                    dobj = lib(lambda: sobj + dict(key='derived%d' % op['slot'], weekend=W), 'calendar_object + dict(weekend=...)')
+                if not isinstance(dobj, Calendar):
+                    raise Violation('unexpected-exception', 'deriving a calendar (%s) gave a %s' % (op['how'], type(dobj).__name__), k)
+                slots[op['slot']] = dobj
+                refs['slot:%d' % op['slot']] = Ref(sorted(sref.h), W, sref.t0, sref.t1, sref.adj)
+                warmed['slot:%d' % op['slot']] = False
+                res.probe('calendar-derived-from-another-' + op['how'])
                 continue
             if kind == 'register_bad':
                 hol = [_d(h) for h in op['hol']]
